@@ -127,6 +127,11 @@ impl<'a> Occ<'a> {
                 // argmin (end, -(len), index)
                 let mut best: Option<M> = None;
                 for s in s0..=last_start {
+                    // an occurrence starting after the best end so far ends
+                    // after it as well: nothing further can be better
+                    if matches!(best, Some(b) if s > b.end) {
+                        break;
+                    }
                     for &i in &self.at[s] {
                         let e = s + self.plen(i);
                         if e > e0 {
